@@ -353,6 +353,12 @@ def run(tier, seed, replay=None):
         "balloon types are modelled by name, matchExpressions and namespaces only; CPU sizing of balloons is outside this property",
     ]
     chk.prove('C19_Props')
+    if tier == 'thorough' and not chk.broken:
+        rc, out, _ = sh('coqchk -silent -o -Q theories NV NV.C19_Props', cwd=COQ, timeout=1200)
+        ok = rc == 0 and 'Axioms: <none>' in out
+        chk.obligations.append(('coqchk:C19_Props', ok))
+        if not ok:
+            chk.broken.append(('proof', 'coqchk C19_Props', out[-1500:]))
     log('C19: proofs checked at %.1fs' % (time.time() - chk.t0))
 
     # ---------------- inputs
@@ -459,12 +465,10 @@ def expr_part(chk, ein, meta, eo, files, stats):
             exp = not ok
         elif op == 'AlwaysTrue':
             exp = True
-        elif op == 'In':
-            exp = ok and (val in vs or '*' in vs)
-        elif op == 'NotIn':
-            exp = not (ok and (val in vs or '*' in vs))
-        elif op == 'Equals' and vs:
-            exp = ok and (val == vs[0] or vs[0] == '*')
+        elif op in ('In', 'NotIn') and '*' not in vs:   # the value "*" is an undocumented wildcard: left to the model
+            exp = (ok and val in vs) != (op == 'NotIn')
+        elif op == 'Equals' and vs and vs[0] != '*':
+            exp = ok and val == vs[0]
         elif op == 'NotEqual' and vs:
             exp = (not ok) or val != vs[0]
         elif op in ('Matches', 'MatchesNot') and vs and glob_ok(vs[0]):
